@@ -5,7 +5,11 @@ package main
 import (
 	"fmt"
 	"os"
+	"sync/atomic"
 	"time"
+
+	"github.com/pingcap/failpoint"
+	"github.com/tikv/client-go/v2/txnkv/transaction"
 
 	tikvkv "github.com/tikv/client-go/v2/kv"
 	"github.com/tikv/client-go/v2/verifx/hub"
@@ -345,6 +349,116 @@ func c06AggRetry(r *vx.Rand) {
 	w.Quiesce(scenarioTimeout)
 }
 
+// aggExpireScenario: fair locking where the locks of the previous attempt may have EXPIRED before the retry.  The ttl manager
+// is stalled (failpoint doNotKeepAlive) and ManagedLockTTL is a few tens of milliseconds; attempt 1 locks k (and returns its
+// value); then more than a ttl passes on the wall clock and on the virtual clock — or not (control) —, a foreign writer
+// resolves the expired lock and commits a newer value of k — or not —; RetryAggressiveLocking; attempt 2 locks k again, asking
+// for the same or less information (so that the client may answer from what attempt 1 cached).  Oracles: the locking read
+// returns the newest committed value at its for-update ts; the store holds the transaction's lock on every key the call
+// reported as locked (`audit held`); no lock stays after the end.  (C01 / C06; the judge is the same for every hub check.)
+func aggExpireScenario(r *vx.Rand) {
+	ttl := uint64(20 + r.Intn(15))
+	old := atomic.SwapUint64(&transaction.ManagedLockTTL, ttl)
+	defer atomic.StoreUint64(&transaction.ManagedLockTTL, old)
+	must(failpoint.Enable("tikvclient/doNotKeepAlive", "return"))
+	defer failpoint.Disable("tikvclient/doNotKeepAlive")
+	keys := keyPool[:3+r.Intn(2)]
+	w := hub.NewWorld(rec, hub.Options{Full: lean, Seed: r.U64(), Splits: pick(r, layoutsOf(1+r.Intn(3)))})
+	defer w.Close()
+	for _, k := range keys {
+		w.TrackKey(k)
+	}
+	if !seed(w, subset(r, keys, 75)) {
+		return
+	}
+	a := w.NewClient("a")
+	step := func(f func()) bool { return runAll(w, scenarioTimeout, f) }
+	if !step(func() { a.Begin(true, pick(r, modes)) }) {
+		return
+	}
+	k := pick(r, keys)
+	if r.Chance(25) {
+		// the primary is another key, locked before the stage
+		var p []byte
+		for p = pick(r, keys); string(p) == string(k); p = pick(r, keys) {
+		}
+		if !step(func() { a.LockAt([][]byte{p}, "-", "fresh") }) {
+			return
+		}
+	}
+	fl1 := pick(r, []string{"r", "r", "rn", "c", "-"})
+	res := ""
+	if !step(func() {
+		a.AggStart()
+		res = a.LockAt([][]byte{k}, fl1, "fresh")
+		if res == "ok" {
+			w.AuditHeld(a, [][]byte{k})
+		}
+	}) {
+		return
+	}
+	expire := r.Chance(70)
+	if expire {
+		time.Sleep(time.Duration(ttl+5+uint64(r.Intn(10))) * time.Millisecond)
+		w.AdvanceClock(int64(3*ttl) + int64(r.Intn(200)))
+		rec.Count("c06:agg-expire:ttl-passed")
+		if r.Chance(80) {
+			// the foreign writer meets the expired lock, resolves it and commits a newer value
+			b := w.NewClient("b")
+			pessB := r.Bool()
+			if !step(func() {
+				b.Begin(pessB, "2pc")
+				if !pessB || b.Lock([][]byte{k}, "-") == "ok" {
+					b.Set(k, val(1, 0, 0))
+					b.Commit()
+				} else {
+					b.Rollback()
+				}
+			}) {
+				return
+			}
+			rec.Count("c06:agg-expire:foreign-writer")
+		}
+	}
+	// the retry asks for the same or less
+	fl2 := fl1
+	if r.Chance(30) {
+		fl2 = map[string]string{"r": "-", "rn": "n", "c": "-", "-": "-"}[fl1]
+	}
+	if r.Chance(15) {
+		fl2 = pick(r, []string{"r", "c"})
+	}
+	commit := r.Chance(70)
+	if !step(func() {
+		a.AggRetry()
+		res = a.LockAt([][]byte{k}, fl2, "fresh")
+		if res == "ok" {
+			w.AuditHeld(a, [][]byte{k})
+		}
+		if a.Txn().IsInAggressiveLockingMode() {
+			if res == "ok" || r.Bool() {
+				a.AggDone()
+			} else {
+				a.AggCancel()
+			}
+		}
+		if res == "ok" {
+			w.AuditHeld(a, [][]byte{k})
+		}
+		if commit {
+			if res == "ok" {
+				a.Set(k, val(0, 3, 0))
+			}
+			a.Commit()
+		} else {
+			a.Rollback()
+		}
+	}) {
+		return
+	}
+	w.Quiesce(scenarioTimeout)
+}
+
 // bigKey makes the i-th key of a family of long keys sharing a one-byte prefix (they sort by i).
 func bigKey(prefix byte, i, size int) []byte {
 	k := make([]byte, size)
@@ -493,6 +607,10 @@ func runC06() {
 		n = 46000
 	}
 	n = scaled(n)
+	expireEvery := 20
+	if run.Thorough() {
+		expireEvery = 60 // the family sleeps: thinned out in the thorough tier
+	}
 	for i := 0; i < n; i++ {
 		t0 := time.Now()
 		fam := "programs"
@@ -502,6 +620,10 @@ func runC06() {
 			fam = "batches"
 		}
 		switch {
+		case i%expireEvery == 10:
+			fam = "agg-expire"
+			aggExpireScenario(rnd.Fork())
+			rec.Count("c06:family:agg-expire")
 		case i%6 == 4:
 			c06AggRetry(rnd.Fork())
 			rec.Count("c06:family:agg-retry")
